@@ -155,7 +155,7 @@ def conc_items(props, tier, want=None):
             for nf in (1, 2):
                 if nf == 2 and (pname in ('same|same', 'call|stats_get', 'call|stats_reset', 'inv_with|inv_cache', 'dup|dupdup', 'fill|inv_cache') or pname.startswith('first|')) and tier == 'quick': continue
                 out.append(dict(kind='conc', subject=name, nfill=nf, progs=pg, preempt=2 if tier == 'quick' else 3, props=list(props)))
-        if name in ('g_lru_l2', 'a_lru_l2', 'g_plain', 'a_plain') and (not want or want('tri-same', it)):
+        if name in ('g_lru_l2', 'a_lru_l2', 'g_plain', 'a_plain', 'g_lfu_l2') and (not want or want('tri-same', it)):
             out.append(dict(kind='conc', subject=name, nfill=1, progs=[[('call', ('new', 0))], [('call', ('new', 0))], [('call', ('new', 0))]], preempt=2, props=list(props), max_paths=20000))
         if tier == 'thorough':
             out.append(dict(kind='conc', subject=name, nfill=1, progs=[[('call', ('new', 0))], [('inv_with',)], [('call', ('new', 1))]], preempt=2, props=list(props), max_paths=20000))
@@ -230,6 +230,7 @@ def cconc_items(props, tier):
                 # another thread has removed the key and refilled the slot
                 if n == 2 and (tier == 'thorough' or pol in ('FIFO', 'LRU')):
                     P_.append(('reins|get;ins', [[('insert', ('pre', 0))], [('get', ('pre', 0)), ('insert', ('new', 0))]], dict(ttl=True)))
+                    if fl == 'A': P_.append(('reinsmem|get;insmem', [[('insert_with_memory', ('pre', 0))], [('get', ('pre', 0)), ('insert_with_memory', ('new', 0))]], dict(ttl=True, mem=True)))
                     if fl == 'G': P_.append(('reins|clear;ins', [[('insert', ('pre', 0))], [('clear',), ('insert', ('new', 0)), ('insert', ('new', 1))]], {}))
                 for nm, pg, kw in P_:
                     if pol in ('LFU', 'Random') and nm in ('get|get',) and tier == 'quick': continue
